@@ -26,6 +26,8 @@ TECHNIQUE += "; generic encoder/decoder interpreted on stand-in structures (JSON
 LEVEL_TEXT += ' Added clause: see technique (C14.R8).'
 TECHNIQUE += '; pickle protocol of nodes: __getstate__ -> __setstate__ interpreted on stand-ins with non-default fields'
 LEVEL_TEXT += ' Added clause: every constructor field of a rule, the left-recursion marks included, survives pickling.'
+TECHNIQUE += '; the PARSER source template hands every content parameter of Grammar.__init__ to the per-parse Grammar'
+LEVEL_TEXT += " Added clause: the generated parser class parses with the model's keywords."
 LEVEL_NOTE = 'Trusted: dataclass semantics (init=False fields are not constructor parameters); BaseNode.__repr__ omits None values.'
 EXPLANATION = ('Static analysis of /repo sources, TatSu not imported. Field tables are computed from the class table and the '
                'dataclass field declarations through the static MRO.')
